@@ -27,6 +27,7 @@ void lsd_fatal_error(char *file, int line, char *mesg)
 #define MAXEV 256
 static struct { int kind; unsigned char *b; size_t n, off; } ev[MAXEV];
 static int nev, cur;
+static long consumed;   /* bytes the scripted descriptor handed out during the current operation */
 
 static ssize_t harness_read(int fd, void *buf, size_t n)
 {
@@ -44,6 +45,7 @@ static ssize_t harness_read(int fd, void *buf, size_t n)
         if (k > n) k = n;
         memcpy(buf, ev[cur].b + ev[cur].off, k);
         ev[cur].off += k;
+        consumed += (long)k;
         if (ev[cur].off == ev[cur].n)
             cur++;
         return (ssize_t)k;
@@ -134,8 +136,11 @@ int main(void)
             } else if (!strcmp(tok, "f")) {
                 int len = atoi(a1), nd = -7, r;
                 load_script(a2 ? a2 : (char *)"");
+                consumed = 0;
                 r = cbuf_write_from_fd(cb, 0, len, &nd);
                 printf("%d,%d", r, r < 0 ? 0 : nd);
+                if (consumed != (r > 0 ? r : 0))   /* bytes taken from the descriptor that the call does not account for */
+                    printf(",TOOK%ld", consumed);
             } else if (!strcmp(tok, "r") || !strcmp(tok, "p")) {
                 int len = atoi(a1), r;
                 unsigned char *b = malloc(len + 1);
